@@ -39,6 +39,7 @@ def run(ck):
     ck.rule("C11.R10", "span-scoped directives can raise the level for a callsite the static directives turn off: EnvFilter never caches `never` while it has span directives (as C08.R11)", floor=3)
     ck.rule("C11.R14", "EnvFilter.has_dynamics is true whenever a span-scoped directive is stored: every path that adds to `dynamics` sets it, and the builder derives it from `dynamics` being non-empty", floor=2)
     ck.rule("C11.R15", "span-directive value matchers: each record_* of the matcher visitor tests exactly the ValueMatch variants of its value kind, with the right comparison, and marks the field matched only when the test succeeds", floor=6)
+    ck.rule("C11.R16", "`is this a span or an event` (what decides whether span directives and field-name constraints apply) reads the callsite kind's own bit: three distinct bits, each predicate tests its own", floor=6)
     ck.rule("C11.R9", "EnvFilter Builder steps keep every other option (same-named field carry-over, as C13.R6)", floor=3)
     ck.rule("C11.R1", "directive vector mutated only by DirectiveSet::add at the binary_search position; max_level kept an upper bound", floor=5)
     ck.rule("C11.R2", "first match in storage order decides; no match disables; siblings agree", floor=4)
@@ -64,6 +65,7 @@ def run(ck):
     builder_carry_over(ck, F, "C11.R9", ("tracing_subscriber::filter::env::builder::",))
     has_dynamics_rule(ck, F)
     match_visitor_rule(ck, F)
+    kind_rule(ck, F)
     # ... and the one option that changes what a value pattern *means* is honoured where the filter is built: with
     # `with_regex(false)` every directive's patterns are turned into literal matchers, for every directive
     fd = F.body("tracing_subscriber::filter::env::builder::Builder::from_directives")
@@ -776,3 +778,37 @@ def match_visitor_rule(ck, F):
                 ck.bad("C11.R15", key, where(b.raw["sp"]), "; ".join(sorted(set(problems))[:3]), fn=b.path)
             else:
                 ck.ok("C11.R15", key, fn=b.path)
+
+
+def kind_rule(ck, F, rid="C11.R16"):
+    M = "tracing_core::metadata::"
+    bits = {n: (F.consts.get(M + "Kind::%s_BIT" % n) or {}).get("val", {}).get("int") for n in ("EVENT", "SPAN", "HINT")}
+    consts = {n: (F.consts.get(M + "Kind::" + n) or {}).get("val", {}).get("int") for n in ("EVENT", "SPAN", "HINT")}
+    key = "Kind::EVENT / SPAN / HINT are three distinct single bits"
+    vals = [bits[n] for n in bits]
+    if all(isinstance(v, int) and v and v & (v - 1) == 0 for v in vals) and len(set(vals)) == 3 and consts == bits:
+        ck.ok(rid, key, detail=bits)
+    else:
+        ck.bad(rid, key, M + "Kind", "bits %s, constants %s" % (bits, consts))
+    for m, n in (("is_event", "EVENT"), ("is_span", "SPAN"), ("is_hint", "HINT")):
+        b = F.body(M + "Kind::" + m)
+        if not ck.anchor(rid, "Kind::" + m, b):
+            continue
+        rets = [show(p.ret) for p in PathEval(b).run() if p.end == "return"]
+        key = "Kind::%s tests the %s bit" % (m, n)
+        want = ("((arg1.0 BitAnd Kind::%s_BIT) Eq Kind::%s_BIT)" % (n, n), "(Kind::%s_BIT Eq (arg1.0 BitAnd Kind::%s_BIT))" % (n, n),
+                "((arg1.0 BitAnd Kind::%s_BIT) Ne 0)" % n, "((Kind::%s_BIT BitAnd arg1.0) Eq Kind::%s_BIT)" % (n, n))
+        if len(rets) == 1 and rets[0] in want:
+            ck.ok(rid, key, fn=b.path)
+        else:
+            ck.bad(rid, key, where(b.raw["sp"]), "returns %s" % rets, fn=b.path)
+    for m in ("is_event", "is_span"):
+        b = F.body(M + "Metadata::<'a>::" + m)
+        if not ck.anchor(rid, "Metadata::" + m, b):
+            continue
+        rets = [show(p.ret) for p in PathEval(b).run() if p.end == "return"]
+        key = "Metadata::%s asks its kind the same question" % m
+        if rets == ["%s(arg1.kind)" % m]:
+            ck.ok(rid, key, fn=b.path)
+        else:
+            ck.bad(rid, key, where(b.raw["sp"]), "returns %s" % rets, fn=b.path)
